@@ -38,7 +38,7 @@ EXTENDS TopologyGuards, Json
 
 CONSTANTS
     NPods,        \* pods per batch
-    Archs,        \* archetype ids the batch is drawn from (subset of 1..36)
+    Archs,        \* archetype ids the batch is drawn from (subset of 1..38)
     Layouts,      \* existing-state ids (subset of 0..14)
     MaxClaims,    \* new NodeClaims per pass
     W_AllDomains, W_Inverse, W_Certain, W_Bootstrap, W_Slack, W_Exclude, W_MatchKeys, W_MinDomains, W_Policies,
@@ -111,6 +111,9 @@ Arch(a, name) ==
       [] a = 33 -> [App(p, "s") EXCEPT !.spread = <<Spr("zone", 1)>>, !.terms = <<<<E("zone", "In", <<"a">>)>>, <<E("zone", "In", <<"b">>)>>>>]
       [] a = 34 -> [App(p, "s") EXCEPT !.spread = <<Spr("zone", 1)>>, !.terms = <<<<E("zone", "In", <<"a", "b">>)>>, <<E("zone", "In", <<"b">>)>>>>]
       [] a = 35 -> [App(p, "s") EXCEPT !.spread = <<Spr("zone", 1)>>, !.terms = <<<<E("zone", "In", <<"~">>)>>, <<E("zone", "In", <<"a", "b">>)>>>>]
+      \* minDomains with node-affinity-restricted pods: fewer ELIGIBLE domains (1) than minDomains (2) although 2 are registered
+      [] a = 37 -> [App(p, "s") EXCEPT !.spread = <<[Spr("zone", 1) EXCEPT !.minDomains = 2]>>, !.sel = [zone |-> "a"]]
+      [] a = 38 -> [App(p, "s") EXCEPT !.spread = <<[Spr("zone", 1) EXCEPT !.minDomains = 2]>>, !.terms = <<<<E("zone", "In", <<"b">>)>>>>]
       [] a = 36 -> [App(p, "s") EXCEPT !.spread = <<[Spr("zone", 1) EXCEPT !.affPol = "Ignore"]>>,
                                        !.terms = <<<<E("zone", "In", <<"b">>)>>, <<E("zone", "In", <<"a">>)>>>>]
 PodName(i) == "w" \o ToString(i)
